@@ -141,11 +141,11 @@ func vpTickOrders(dir OrderDirection, n int) ([]Order, []*BaseOrder) {
 func vpDistribute(dir OrderDirection, n int) {
 	zzvp.Option("no-region-merge")
 	os, bs := vpTickOrders(dir, n)
-	// quick tier: prices 1, 0.5 and 0.01 (the distribution loops fork a lot); thorough: the whole grid for two orders,
-	// the first three prices for three orders (three orders on one price take 10-20 minutes)
-	tp := len(vpPriceGrid)
+	// quick tier: prices 1, 0.5 and 0.01 (the distribution loops fork a lot); thorough: six prices for two orders
+	// (the whole grid of eleven took 19 minutes for the buy side alone), two prices for three orders
+	tp := 6
 	if n > 2 {
-		tp = 3
+		tp = 2
 	}
 	p := vpGridPriceN(3, tp)
 	amt := zzvp.AnySdkInt()
@@ -307,7 +307,7 @@ func vpDistributeToTick(dir OrderDirection) {
 		bs = append(bs, b)
 		os = append(os, &vpBatchOrder{BaseOrder: b, Batch: ages[i]})
 	}
-	p := vpGridPrice(2)
+	p := vpGridPriceN(2, 4)
 	amt := zzvp.AnySdkInt()
 	total := TotalMatchableAmount(os, p)
 	// callers (MatchAtSinglePrice, Match): 0 < amt <= matchable amount of the tick, worth at least one quote unit
